@@ -798,6 +798,73 @@ def construct_campaign(sess, rng, count, kinds=KINDS):
             sess.rate(mh, [[a], [b]])
 
 
+def pattern_groups(sess, rng, prop="C04", kinds=KINDS):
+    """Stratified, not sampled: for every model and every pattern of SIGMA_PATTERNS one game in which a team's sigmas stand in
+    that exact relation (scaled by a power of two), listed with every rotation of that team's members (and the teams reversed),
+    under tau = 0 and the default tau.  The coincidences are those of ratings kept as round numbers."""
+    for kind in kinds:
+        for size, pats in sorted(SIGMA_PATTERNS.items()):
+            for pat in pats:
+                for tau in (0.0, None):
+                    kw = {} if tau is None else {"tau": tau}
+                    sess.reset()
+                    mh = sess.model(kind, **kw)
+                    k = rng.choice([1.0, 0.5, 0.25, 2.0]) if max(pat) * 2.0 <= 10 * BETA0 else rng.choice([1.0, 0.5, 0.25])
+                    team = [(BETA0 * rng.choice([4.0, 5.0, 6.0, 7.5]), p * k) for p in pat]
+                    others = [[(pick_mu(rng, BETA0) * 0.5, pick_sigma(rng, BETA0, False)) for _ in range(rng.randint(1, 2))] for _t in range(rng.randint(1, 2))]
+                    vals = [team] + others
+                    n = len(vals)
+                    ranks = random_perm(rng, n)
+                    gid = GID.new(prop)
+                    sess.rate(mh, make_teams(mh, vals), ranks=ranks, group=gid, role="base")
+                    for rot in range(1, size):
+                        mp0 = [((j + rot) % size) + 1 for j in range(size)]
+                        for rev in (False, True):
+                            tp = list(range(1, n + 1))
+                            if rev:
+                                tp = tp[::-1]
+                            mps = [mp0 if tp[q_] == 1 else list(range(1, len(vals[tp[q_] - 1]) + 1)) for q_ in range(n)]
+                            pv = [[vals[tp[q_] - 1][mps[q_][l] - 1] for l in range(len(mps[q_]))] for q_ in range(n)]
+                            sess.rate(mh, make_teams(mh, pv), ranks=[ranks[tp[q_] - 1] for q_ in range(n)], group=gid, role="perm", aux=[tp, mps])
+
+
+def newcomer_groups(sess, rng, kinds=KINDS):
+    """C16, stratified: every model x limit_sigma on / off x two taus - a game of equal-sized teams in which one or two players
+    are newcomers (exactly the model's own prior, as model.rating() hands it out), then the same game shifted by a constant
+    (the model's mu is not a rating and stays) and rescaled (the model with it)."""
+    for kind in kinds:
+        for lim in (True, False):
+            for tau in (BETA0 / 50.0, BETA0 / 3.0):
+                sess.reset()
+                base = sess.model(kind, tau=tau, limit_sigma=lim)
+                size = rng.choice([1, 2, 2])
+                n = rng.choice([2, 2, 3])
+                vals = random_vals(rng, [size] * n, BETA0, True)
+                vals = [[(mu * 0.5, sg) for (mu, sg) in tv] for tv in vals]
+                for _nc in range(rng.randint(1, 2)):
+                    vals[rng.randrange(n)][rng.randrange(size)] = (base.m.mu, base.m.sigma)
+                okw = {"ranks": random_perm(rng, n)}
+                for op in ("rate", "win", "draw", "rank"):
+                    gid = GID.new("C16", "new" + op)
+                    if op == "rate":
+                        sess.rate(base, make_teams(base, vals), group=gid, role="base", **okw)
+                    else:
+                        sess.predict(op, base, make_teams(base, vals), group=gid, role="base")
+                    for d in (3.5, -float(rng.randint(1, 9))):
+                        shv = [[(mu + d, sg) for (mu, sg) in tv] for tv in vals]
+                        if op == "rate":
+                            sess.rate(base, make_teams(base, shv), group=gid, role="shifted", aux=[d], **okw)
+                        else:
+                            sess.predict(op, base, make_teams(base, shv), group=gid, role="shifted", aux=[d])
+                    k = rng.choice([2.0, 0.5, 7.0])
+                    mk = sess.model(kind, mu=base.m.mu * k, sigma=base.m.sigma * k, beta=BETA0 * k, tau=tau * k, limit_sigma=lim, kappa=base.m.kappa)
+                    sv = [[(mu * k, sg * k) for (mu, sg) in tv] for tv in vals]
+                    if op == "rate":
+                        sess.rate(mk, make_teams(mk, sv), group=gid, role="scaled", aux=[k], **okw)
+                    else:
+                        sess.predict(op, mk, make_teams(mk, sv), group=gid, role="scaled", aux=[k])
+
+
 def effopts_groups(sess, rng, count, kinds=KINDS):
     """C15: per-call tau / limit_sigma against model-level settings."""
     for _ in range(count):
